@@ -142,7 +142,7 @@ def single_file_cases(depth=4, names=NAMES):
 
 HDR_NAMES = ["h.h", "k.h", "u.h"]
 CB = "cb"
-HDR_DIRS = [f"{CB}/src", f"{CB}/src/sub", f"{CB}/inc1", f"{CB}/inc2", f"{CB}/sys1", "ext"]
+HDR_DIRS = [f"{CB}/src", f"{CB}/src/sub", f"{CB}/inc1", f"{CB}/inc2", f"{CB}/sys1", "ext", CB]
 INC_DIRS = [f"{CB}/inc1", f"{CB}/inc2", f"{CB}/sys1", f"{CB}/src/sub", "ext", f"{CB}/src"]
 
 
